@@ -30,7 +30,7 @@ PROF = sc.make_prof(fams=["lin", "sinlin", "rosen", "hashed", "hashed", "script"
                     maxfuns=["npt+1", 10, 30, 60, 150, 150],
                     # the radius updates have their own copies inside the growing phase (safety steps with their three variants,
                     # growing.gamma_dec, the reset at its end): a fifth of all cases grows its initial set
-                    opts_list=[0, 0, 0, 1, 2, 3, 4, 5, 6, 7, 8, 9, 10, 12, 13],
+                    opts_list=[0, 0, 0, 1, 2, 3, 4, 4, 4, 4, 5, 6, 7, 8, 9, 10, 12, 13],
                     growing_list=["default", "perturb", "newdirs", "geom", "safety_reduce", "safety_reduce", "safety_reduce", "safety_full",
                                   "safety_full", "reset", "reset", "gamma_dec", "gamma_dec", "no_safety", "delta_scale", "full_rank_params"])
 
